@@ -51,7 +51,7 @@ SCOPES = {
     ),
     # the same in a nested history, folder mode and -sf mode
     "fmt3n": dict(
-        fmts=["md5", "sha1", "xxh64"], files=[P("d", "a")], dirs=[P("d")], init={P("d"): "DIR", P("d", "a"): "c1"},
+        fmts=["c4", "md5", "sha1"], files=[P("d", "a")], dirs=[P("d")], init={P("d"): "DIR", P("d", "a"): "c1"},
         contents=["c1", "c2"], roots=[P(), P("d")], fmtchoices="all", pats=[()], sf=[frozenset({P("d", "a")})],
         ops=["alter", "create", "createsf"], maxgens=4, maxops=5, keepsnap=False,
     ),
@@ -83,9 +83,9 @@ SCOPES = {
     ),
     # flatten and verify -pl over flat histories with changing formats, failed entries, partial -sf generations
     "flat": dict(
-        fmts=["md5", "sha1", "xxh64"], files=[P("a"), P("d", "b")], dirs=[P("d")],
+        fmts=["c4", "md5", "sha1"], files=[P("a"), P("d", "b")], dirs=[P("d")],
         init={P("a"): "c1", P("d"): "DIR", P("d", "b"): "c2"}, contents=["c1", "c2"],
-        roots=[P()], fmtchoices=[["md5"], ["sha1"], ["xxh64"], ["md5", "sha1"]], pats=[()], sf=[frozenset({P("d", "b")}), frozenset({P("a")})],
+        roots=[P()], fmtchoices=[["md5"], ["sha1"], ["c4"], ["md5", "sha1"], ["c4", "md5"]], pats=[()], sf=[frozenset({P("d", "b")}), frozenset({P("a")})],
         ops=["alter", "delete", "create", "createsf", "flatten", "verifypl"],
         maxgens=3, maxops=7, keepsnap=False,
     ),
@@ -174,7 +174,7 @@ SCOPES = {
     # renames with -dr
     "ren": dict(
         fmts=["md5", "xxh64"], files=[P("a"), P("a2"), P("d", "b"), P("e", "b")], dirs=[P("d"), P("e")],
-        init={P("a"): "c1", P("d"): "DIR", P("d", "b"): "c2", P("e"): "DIR"}, contents=["c3"],
+        init={P("a"): "c1", P("d"): "DIR", P("d", "b"): "EMPTY", P("e"): "DIR"}, contents=["c3"],      # one of the files is empty
         roots=[P()], fmtchoices=[["md5"], ["xxh64"]], pats=[()], sf=[],
         ops=["alter", "rename", "create", "verify", "diff", "dr", "distinct"], maxgens=2, maxops=5, keepsnap=False,
     ),
@@ -193,6 +193,13 @@ SCOPES = {
         roots=[P()], fmtchoices=[["md5"]], pats=[()], sf=[],
         ops=["rename", "create", "verify", "dr", "dronly"], maxgens=3, maxops=6, keepsnap=False,
         mutable=[P("a"), P("a2"), P("d", "a3")],
+    ),
+    # files longer than the 1 MiB read chunk inside histories (create hashes them in one pass in all formats)
+    "big": dict(
+        fmts=["md5", "xxh64"], files=[P("a"), P("d", "b")], dirs=[P("d")],
+        init={P("a"): "bigp1", P("d"): "DIR", P("d", "b"): "c1"}, contents=["bigp1", "big2", "c1"],
+        roots=[P()], fmtchoices=[["md5"], ["md5", "xxh64"]], pats=[()], sf=[frozenset({P("a")})],
+        ops=["alter", "create", "createsf", "verify"], maxgens=2, maxops=4, keepsnap=False, mutable=[P("a")],
     ),
     # one file renamed generation after generation (three and more steps), every step sealed with -dr
     "chain3": dict(
